@@ -336,6 +336,7 @@ def iter_vals(interp, env, w):
 
 
 def run(ctx):
+    ctx.guard("C11.R6", "`better` is the numeric order of the objective values (ties incl. -0.0 / +0.0 are ties)", lambda: __import__("c09").r3_total_order(ctx, "C11.R6"))
     ctx.guard("C11.K17", "constructor fidelity", lambda: __import__("ctor").check_for(ctx, "C11", 28))
     ctx.guard("C11.R1", "signature", lambda: r1_signature(ctx))
     ctx.guard("C11.R2", "driver", lambda: r2_driver(ctx))
